@@ -402,6 +402,7 @@ class CaseReport:
         self.nondet_skipped = 0
         self.refuted = set()
         self.over_approx = 0
+        self.boundary_witnesses = 0
         self.functions = {}
 
 
@@ -504,6 +505,34 @@ def _run_case(case, rep, timeout_ms, cross, validate, deadline):
                 # the path took one of several admissible orders of equal values; NumPy took another
                 del rep.validation_mismatch[nm:]
                 rep.nondet_skipped += 1
+            if len(rep.validation_mismatch) > nm:
+                # A witness that sits on a branch boundary (e.g. a variance of exactly 0) can flip under float
+                # rounding.  An unfaithful engine disagrees for (almost) every witness, a boundary witness for one:
+                # retry with witnesses that differ from the first one in every real-valued input.
+                first = rep.validation_mismatch[nm:]
+                del rep.validation_mismatch[nm:]
+                agreed = False
+                away = []
+                for name_, var in env.decl.items():
+                    if z3.is_real(var):
+                        try:
+                            v0 = model.eval(var, model_completion=True)
+                            away.append(z3.Or(var - v0 > z3.Q(1, 100), v0 - var > z3.Q(1, 100)))
+                        except z3.Z3Exception:
+                            pass
+                for extra in (away, away[::2] or away):
+                    r2, m2, _ = solve.check(ctxf + hints + extra, min(timeout_ms, 5000), st)
+                    if r2 != "sat":
+                        continue
+                    before = len(rep.validation_mismatch)
+                    _validate(case, rep, env, inp, oc, props, m2, pi)
+                    if len(rep.validation_mismatch) == before:
+                        agreed = True
+                        rep.boundary_witnesses += 1
+                        break
+                    del rep.validation_mismatch[before:]
+                if not agreed:
+                    rep.validation_mismatch.extend(first)
     # "X changes the result" clauses: the equality canary must be refutable, otherwise the clause is violated
     for name in case.must_differ:
         if name in rep.refuted:
@@ -852,6 +881,7 @@ def finish_check(prop_id, reports, *, tier, seed, bounds, stubs, assumptions, t0
         "vacuous_paths": tot["reach_bad"],
         "canaries_refuted": tot["canaries_ok"],
         "inconclusive_feasibility_queries_followed_both_ways": sum(getattr(r, "over_approx", 0) for r in reports),
+        "witnesses_on_a_rounding_boundary_replaced": sum(getattr(r, "boundary_witnesses", 0) for r in reports),
         "validation_mismatches": tot["mismatches"],
         "validation_mismatch_examples": [m for r in reports for m in r.validation_mismatch][:5],
         "solver": {
